@@ -129,6 +129,20 @@ class Obj:
         self.cls, self.fields, self.free, self.frozen = cls, {}, free, False
 
 
+class Quat:
+    """Eigen::Quaternion<double>: the four coefficient terms (w, x, y, z)"""
+
+    def __init__(self, w, x, y, z):
+        self.q = [w, x, y, z]
+
+
+class AngleAxis:
+    """Eigen::AngleAxis<double>: angle term, axis (three terms)"""
+
+    def __init__(self, angle, axis):
+        self.angle, self.axis = angle, axis
+
+
 class Ref:
     """a scalar lvalue"""
 
@@ -160,6 +174,16 @@ def mat_dims(ty):
         m = re.match(r"^Eigen::(\w+)$", s)
         if m and m.group(1) in ALIAS_DIMS:
             return ALIAS_DIMS[m.group(1)]
+    return None
+
+
+def rotation_type(ty):
+    for s in type_strings(ty):
+        m = re.match(r"^(?:Eigen::)?(AngleAxis|Quaternion)<double(?:, \d+)?>$", clean_type(s))
+        if m:
+            return m.group(1)
+        if clean_type(s) in ("Eigen::Quaterniond", "Eigen::AngleAxisd"):
+            return "Quaternion" if "Quat" in s else "AngleAxis"
     return None
 
 
@@ -384,6 +408,10 @@ class Ev:
         d = mat_dims(ty)
         if d:
             return self.free_matrix(key, name, d, sig)
+        if rotation_type(ty) == "Quaternion":
+            cnq = self.fresh(name)
+            self.free[cnq] = (key, "quat T", sig)
+            return Quat(*[A("(q%s %s)" % (c, cnq)) for c in "wxyz"])
         cn = class_name(ty)
         if cn:
             o = Obj(cn, free=(key, name, sig))
@@ -767,6 +795,8 @@ class Ev:
                     raise Unsupported("block passed by non-const reference")
                 elif v.base is not v:
                     v = fresh_mat(v.entries())
+            elif isinstance(v, AngleAxis):
+                raise Unsupported("AngleAxis argument")
             elif isinstance(v, (Obj, list)) and not byref:
                 raise Unsupported("object passed by value")
             elif isinstance(v, str):
@@ -823,6 +853,8 @@ class Ev:
             a = a.get()
         if isinstance(b, Ref):
             b = b.get()
+        if isinstance(a, (Quat, AngleAxis)) and isinstance(b, (Quat, AngleAxis)) and op == "*":
+            return self.quat_mul(a, b)
         am, bm = isinstance(a, Mat), isinstance(b, Mat)
         if am and bm:
             if op == "*":
@@ -947,6 +979,67 @@ class Ev:
         self.lets.append((name, "(%s N %s)" % (aux, " ".join(names))))
         return fresh_mat([[A("(%s %s %s)" % (name, nat(i), nat(j))) for j in range(v.c)] for i in range(v.r)])
 
+    # ---- quaternions: the formulas of Eigen/src/Geometry/Quaternion.h (3.4)
+    def to_quat(self, v):
+        if isinstance(v, Quat):
+            return v
+        if isinstance(v, AngleAxis):
+            # Quaternion::operator=(AngleAxis):  ha = Scalar(0.5) * angle;  w = cos(ha);  vec = sin(ha) * axis
+            ha = self.bind_scalar("ha", binop("*", A("(nofDec N (5)%Z (-1)%Z)"), v.angle))
+            s = self.bind_scalar("sin_ha", "(nsin N %s)" % ha)
+            return self.bind_quat("q", Quat("(ncos N %s)" % ha, *[binop("*", s, a) for a in v.axis]))
+        raise Unsupported("quaternion expected")
+
+    def bind_quat(self, hint, q):
+        if all(isinstance(t, A) for t in q.q):
+            return q
+        name = self.fresh(hint)
+        self.lets.append((name, "(mkQ %s)" % " ".join(q.q)))
+        return Quat(*[A("(q%s %s)" % (c, name)) for c in "wxyz"])
+
+    def quat_mul(self, a, b):
+        a, b = self.to_quat(a), self.to_quat(b)
+        (aw, ax, ay, az), (bw, bx, by, bz) = a.q, b.q
+
+        def m(x, y):
+            return binop("*", x, y)
+        return self.bind_quat("q", Quat(
+            binop("-", binop("-", binop("-", m(aw, bw), m(ax, bx)), m(ay, by)), m(az, bz)),
+            binop("-", binop("+", binop("+", m(aw, bx), m(ax, bw)), m(ay, bz)), m(az, by)),
+            binop("-", binop("+", binop("+", m(aw, by), m(ay, bw)), m(az, bx)), m(ax, bz)),
+            binop("-", binop("+", binop("+", m(aw, bz), m(az, bw)), m(ax, by)), m(ay, bx))))
+
+    def quat_matrix(self, q):
+        """QuaternionBase::toRotationMatrix"""
+        w, x, y, z = self.to_quat(q).q
+        two = A("(nofZ N (2)%Z)")
+        b = self.bind_scalar
+        tx, ty, tz = b("tx", binop("*", two, x)), b("ty", binop("*", two, y)), b("tz", binop("*", two, z))
+        twx, twy, twz = b("twx", binop("*", tx, w)), b("twy", binop("*", ty, w)), b("twz", binop("*", tz, w))
+        txx, txy, txz = b("txx", binop("*", tx, x)), b("txy", binop("*", ty, x)), b("txz", binop("*", tz, x))
+        tyy, tyz, tzz = b("tyy", binop("*", ty, y)), b("tyz", binop("*", tz, y)), b("tzz", binop("*", tz, z))
+        one = A("(nofZ N (1)%Z)")
+        return fresh_mat([[binop("-", one, binop("+", tyy, tzz)), binop("-", txy, twz), binop("+", txz, twy)],
+                          [binop("+", txy, twz), binop("-", one, binop("+", txx, tzz)), binop("-", tyz, twx)],
+                          [binop("-", txz, twy), binop("+", tyz, twx), binop("-", one, binop("+", txx, tyy))]])
+
+    def quat_method(self, q, nm, args):
+        if nm in ("w", "x", "y", "z") and not args:
+            return q.q["wxyz".index(nm)]
+        if nm == "toRotationMatrix" and not args:
+            return self.quat_matrix(q)
+        if nm == "normalized" and not args:
+            # MatrixBase::normalized on the coefficients (x, y, z, w):  z = squaredNorm;  z > 0 ? coeffs / sqrt(z) : coeffs
+            w, x, y, z = q.q
+            zz = self.bind_scalar("z", sum_terms([binop("*", t, t) for t in (x, y, z, w)]))
+            n = self.bind_scalar("n", "(nsqrt N %s)" % zz)
+            c = "(nltb N (nofZ N (0)%%Z) %s)" % zz
+            return self.bind_quat("q", Quat(*["(if %s then %s else %s)" % (c, binop("/", t, n), t) for t in (w, x, y, z)]))
+        if nm == "conjugate" and not args:
+            w, x, y, z = q.q
+            return Quat(w, neg(x), neg(y), neg(z))
+        raise Unsupported("Quaternion method %s" % nm)
+
     # ---- comma initialiser
     def comma(self, n):
         items = []
@@ -996,12 +1089,14 @@ class Ev:
         if c.get("kind") != "MemberExpr":
             raise Unsupported("member call through %s" % c.get("kind"))
         nm = c.get("name")
-        args = n["inner"][1:]
+        args = [a for a in n["inner"][1:] if a.get("kind") != "CXXDefaultArgExpr"]     # head<n>(Index n = N), block<r,c>(i, j, r = R, c = C)
         base = self.ev(c["inner"][0])
         if isinstance(base, Ref):
             base = base.get()
         if isinstance(base, Mat):
             return self.mat_method(base, nm, args, n)
+        if isinstance(base, Quat):
+            return self.quat_method(base, nm, args)
         if isinstance(base, Obj):
             d = self.index.by_id.get(c.get("referencedMemberDecl"))
             if d is not None and (d.get("name") != nm or len(params_of(d)) != len(args)):
@@ -1133,6 +1228,19 @@ class Ev:
             if not d:
                 raise Unsupported("array of %s" % aty.group(1))
             return [Mat(*d) for _ in range(int(aty.group(2)))]
+        rot = rotation_type(ty)
+        if rot:
+            vals = [self.ev(a) for a in args]
+            vals = [v.get() if isinstance(v, Ref) else v for v in vals]
+            if rot == "AngleAxis" and len(vals) == 2 and isinstance(vals[1], Mat) and vals[1].is_vector() and vals[1].r * vals[1].c == 3:
+                return AngleAxis(self.bind_scalar("angle", self.scalar(vals[0])), [vals[1].vget(i) for i in range(3)])
+            if rot == "AngleAxis" and len(vals) == 1 and isinstance(vals[0], AngleAxis):
+                return vals[0]
+            if rot == "Quaternion" and len(vals) == 1 and isinstance(vals[0], (Quat, AngleAxis)):
+                return self.to_quat(vals[0])
+            if rot == "Quaternion" and len(vals) == 4 and all(not isinstance(v, (Mat, Obj, list, Quat, AngleAxis)) for v in vals):
+                return self.bind_quat("q", Quat(*[self.scalar(v) for v in vals]))
+            raise Unsupported("%s constructor with %d arguments" % (rot, len(vals)))
         d = mat_dims(ty)
         if d:
             r, c = d
@@ -1140,6 +1248,8 @@ class Ev:
                 return Mat(r, c)
             vals = [self.ev(a) for a in args]
             vals = [v.get() if isinstance(v, Ref) else v for v in vals]
+            if len(vals) == 1 and isinstance(vals[0], (Quat, AngleAxis)) and (r, c) == (3, 3):
+                return self.quat_matrix(vals[0])          # Matrix(const RotationBase &) = toRotationMatrix()
             if len(vals) == 1 and isinstance(vals[0], Mat):
                 v = vals[0]
                 if (v.r, v.c) != (r, c):
@@ -1388,6 +1498,8 @@ def coq_value(v):
         v = v.get()
     if isinstance(v, str):
         return v, "T"
+    if isinstance(v, Quat):
+        return "(mkQ %s)" % " ".join(v.q), "quat T"
     if isinstance(v, Mat):
         e = v.entries()
         flat = [t for row in e for t in row]
